@@ -222,3 +222,26 @@ func init() {
 	addMutant(Mutant{Name: "c16-float-key-exponent", Property: "C16", File: "ygot/render.go",
 		Old: "\t\treturn strconv.FormatFloat(kv.Float(), 'f', -1, 64), nil", New: "\t\treturn fmt.Sprintf(\"%g\", v), nil", Expect: "KeyValueAsString:reflect.Float64"})
 }
+
+func init() {
+	// C23
+	addMutant(Mutant{Name: "c23-sides-swapped", Property: "C23", File: "gnmidiff/set_to_get.go",
+		Old: "diff.MismatchedUpdates[pathA] = MismatchedUpdate{A: vA, B: vB}", New: "diff.MismatchedUpdates[pathA] = MismatchedUpdate{A: vB, B: vA}", Expect: "class:mismatched"})
+	addMutant(Mutant{Name: "c23-handled-not-removed", Property: "C23", File: "gnmidiff/set_to_get.go",
+		Old: "\t\tdelete(updates, pathA)\n", New: "", Expect: "handled-removed"})
+	addMutant(Mutant{Name: "c23-removed-only-common", Property: "C23", File: "gnmidiff/set_to_get.go",
+		Old: "\t\tcase ok:\n\t\t\tdiff.CommonUpdates[pathA] = vA\n\t\tdefault:\n\t\t\tdiff.MissingUpdates[pathA] = vA\n\t\t}\n\t\tdelete(updates, pathA)\n", New: "\t\tcase ok:\n\t\t\tdiff.CommonUpdates[pathA] = vA\n\t\t\tdelete(updates, pathA)\n\t\tdefault:\n\t\t\tdiff.MissingUpdates[pathA] = vA\n\t\t}\n", Expect: "handled-removed"})
+	addMutant(Mutant{Name: "c23-prefix-no-slash", Property: "C23", File: "gnmidiff/set_to_get.go",
+		Old: "t.PrefixSearch(delPath + \"/\")", New: "t.PrefixSearch(delPath)", Expect: "extras-under-deletes"})
+	addMutant(Mutant{Name: "c23-mismatch-eq", Property: "C23", File: "gnmidiff/set_to_get.go",
+		Old: "\t\tcase ok && !reflect.DeepEqual(vA, vB):", New: "\t\tcase ok && fmt.Sprint(vA) != fmt.Sprint(vB) && !reflect.DeepEqual(vA, nil):", Expect: "class:"})
+	addMutant(Mutant{Name: "c23-common-any", Property: "C23", File: "gnmidiff/set_to_get.go",
+		Old: "\t\tcase ok:\n\t\t\tdiff.CommonUpdates[pathA] = vA", New: "\t\tcase ok || vA == nil:\n\t\t\tdiff.CommonUpdates[pathA] = vA", Expect: "class:"})
+	addMutant(Mutant{Name: "c23-notif-prefix-ignored", Property: "C23", File: "gnmidiff/set_to_get.go",
+		Old: "\t\t\tpath, err := fullPathStr(prefix, upd.Path)", New: "\t\t\tpath, err := fullPathStr(prefix[:0], upd.Path)", Expect: "notification-leaves"})
+	// C10
+	addMutant(Mutant{Name: "c10-write-not-at-target", Property: "C10", File: "ytypes/node.go",
+		Old: "\t\t\tif !util.IsValueNil(args.val) && len(path.Elem) == to {", New: "\t\t\tif !util.IsValueNil(args.val) && len(path.Elem) <= to+1 {", Expect: "value-write"})
+	addMutant(Mutant{Name: "c10-wrong-schema", Property: "C10", File: "ytypes/node.go",
+		Old: "if err := unmarshalGeneric(cschema, root, val, encoding, opts...); err != nil {", New: "if err := unmarshalGeneric(schema, root, val, encoding, opts...); err != nil {", Expect: "value-write#2:target"})
+}
